@@ -355,9 +355,10 @@ Proof. vm_compute. reflexivity. Qed.
 (* ====================================================================== *)
 Section ObjProofs.
   Variable data : list Z.
+  Variable reuse : bool.
 
-  Let step := ostep data true.
-  Let run := orun data true.
+  Let step := ostep data true reuse.
+  Let run := orun data true reuse.
 
   Definition OInv (s : ostate) : Prop :=
     match o_array s with
@@ -381,12 +382,15 @@ Section ObjProofs.
 
   Lemma ensure_ok s :
     OInv s ->
-    let '(h0, a) := ensure data true s in
-    nth_error h0 a = Some (data, false) /\ exists x, h0 = o_heap s ++ x.
+    let '(h0, a, b) := ensure data true reuse s in
+    nth_error h0 a = Some (data, false) /\ hget h0 b = Some data.
   Proof.
     intros HI. unfold ensure, OInv in *. destruct (o_array s) as [a|].
-    - split; [exact HI|exists []; now rewrite app_nil_r].
-    - unfold halloc. simpl. split; [|eauto].
+    - destruct reuse.
+      + split; [exact HI|]. unfold hget. now rewrite HI.
+      + unfold halloc. split; [|apply hget_app_new].
+        rewrite nth_error_app1; [exact HI|]. apply nth_error_Some. congruence.
+    - unfold halloc. simpl. split; [|apply hget_app_new].
       rewrite nth_error_app2, Nat.sub_diag by lia. reflexivity.
   Qed.
 
@@ -395,20 +399,20 @@ Section ObjProofs.
   Proof.
     intros HI. destruct o as [r|j delta]; unfold step, ostep.
     - pose proof (ensure_ok s HI) as He.
-      destruct (ensure data true s) as [h0 a]. destruct He as [Ha _].
+      destruct (ensure data true reuse s) as [[h0 a] b]. destruct He as [Ha Hb].
       assert (Hlt : (a < length h0)%nat) by (apply nth_error_Some; congruence).
       destruct r as [|lo hi|idx|].
       + cbn [fst snd]. split; [unfold OInv; simpl; exact Ha|].
-        simpl. unfold view_value, hget. simpl. rewrite Ha. now rewrite select_all.
+        simpl. unfold view_value. simpl. rewrite Hb. now rewrite select_all.
       + cbn [fst snd]. split; [unfold OInv; simpl; exact Ha|].
-        simpl. unfold view_value, hget. simpl. now rewrite Ha.
+        simpl. unfold view_value. simpl. now rewrite Hb.
       + destruct (select data (map Z.to_nat idx)) as [l|] eqn:Hs.
         * unfold halloc. cbn [fst snd]. split.
           -- unfold OInv; simpl. now rewrite nth_error_app1.
           -- simpl. rewrite Hs. unfold view_value. cbn [fst snd].
              rewrite hget_app_new. now rewrite select_all.
         * cbn [fst snd]. split; [unfold OInv; simpl; exact Ha|].
-          simpl. rewrite Hs. unfold view_value, hget. simpl. now rewrite Ha.
+          simpl. rewrite Hs. unfold view_value. simpl. now rewrite Hb.
       + unfold halloc. cbn [fst snd]. split.
         * unfold OInv; simpl. now rewrite nth_error_app1.
         * simpl. unfold view_value. cbn [fst snd]. rewrite hget_app_new. now rewrite select_all.
@@ -428,7 +432,7 @@ Section ObjProofs.
     destruct (ostep_ok s o HI) as [HI' Hobs].
     unfold run in *. simpl. fold step. destruct (step s o) as [s1 r].
     specialize (IH s1 HI').
-    destruct (orun data true s1 ops) as [s2 rs]. simpl in *. now rewrite Hobs, IH.
+    destruct (orun data true reuse s1 ops) as [s2 rs]. simpl in *. now rewrite Hobs, IH.
   Qed.
 
   Lemma obj_history_fresh : forall ops,
@@ -438,13 +442,13 @@ End ObjProofs.
 
 (* a writable cached array: ds["deform"][:][0] = 999 changes later reads *)
 Lemma obj_alias_refuted :
-  exists data ops, map oobs (snd (orun data false o_init ops)) <> map (ospec data) ops.
+  exists data ops, map oobs (snd (orun data false true o_init ops)) <> map (ospec data) ops.
 Proof.
   exists [1; 2; 3], [ORead RdAll; OMut 0 7; ORead (RdSlice 1 3)]. vm_compute. discriminate.
 Qed.
 
 Example obj_example :
-  map oobs (snd (orun [1; 2; 3; 4] true o_init
+  map oobs (snd (orun [1; 2; 3; 4] true true o_init
                       [ORead (RdSlice 1 3); OMut 0 7; ORead (RdFancy [3; 0]); OMut 1 5;
                        ORead RdCopy; OMut 2 1; ORead RdAll]))
   = [Some (Some [2; 3]); None; Some (Some [4; 1]); None; Some (Some [1; 2; 3; 4]); None;
